@@ -201,7 +201,11 @@ def run_cases(ctx, cases, tag="corr"):
   for i, r in enumerate(results):
     if "exc" in r or r.get("out", 0) is None:
       continue
-    terms.append(term_for(r))
+    try:
+      terms.append(term_for(r))
+    except ValueError as e:      # NaN / Inf has no dyadic form: reported with the case as failing input
+      r["exc"] = "non-finite value in the implementation's output for finite input (%s)" % e
+      continue
     idx.append(i)
   vals = ctx.coq_eval(tag, HEADER, terms, per_shard=max(4, min(60, len(terms) // common.NPROC + 1)))
   for i, v in zip(idx, vals):
